@@ -132,9 +132,10 @@ def exc_shape(e, depth=0):
     """Class-name skeleton of a (CannotProvide) cause tree; messages are presentation."""
     if depth > 12:
         return ["deep"]
+    notes = len(getattr(e, "__notes__", None) or ())     # how many notes (e.g. "Location: ...") were attached, not their text
     if isinstance(e, BaseExceptionGroup):
-        return [tname(type(e)), sorted((exc_shape(s, depth + 1) for s in e.exceptions), key=repr)]
-    return [tname(type(e))]
+        return [tname(type(e)), notes, sorted((exc_shape(s, depth + 1) for s in e.exceptions), key=repr)]
+    return [tname(type(e)), notes]
 
 
 def outcome(fn, *args):
